@@ -4,6 +4,11 @@ import json, os
 ROOT = os.path.dirname(os.path.dirname(os.path.abspath(__file__)))
 props = [json.loads(l) for l in open(ROOT + "/properties.jsonl")]
 CLAIMED = {
+ "C29": dict(
+   technique="Lean 4 proof (mutual structural induction + lexicographic-composition lemma over 'consistent triples') that the model of cmp_expr is a total preorder; typecode table regenerated; correspondence of cmp_expr on generated pairs",
+   text="Expr.cmp models cmp_expr (typecode, arity, operands last-to-first, the five terminal comparators incl. repr comparison). Theorems for all expressions of any size: reflexive (C29_refl, which is what makes the implementation's identity shortcuts and equal-pairs memo sound), every triple consistently ranked (C29_consistent), hence antisymmetric, transitive, ties are a congruence, and the two-operand canonical sort used by Sum/Product/Inner is independent of the operand order whenever the operands do not tie (C29_sort2_order_independent). Typecode injectivity is re-checked by decide over the regenerated table. cmp_expr is compared with the model on thousands of ordered pairs per run (one-edit variants, shared sub-objects, equal-but-distinct rebuilds, different-rank indexing); the oracle checks antisymmetry/transitivity and a+b==b+a, a*b==b*a, inner(a,b)==conj(inner(b,a)) on the implementation. The intransitivity found on the pinned tree was repaired by a fix: commit.",
+   note="Trusted: Lean kernel; typecodes.py; harness; repr strings of terminals are taken from the live objects; explicit stack/memo of cmp_expr modelled by recursion. Sane (class names as the serializer produces them) is a hypothesis of the order theorems. The constructors' use of the sort (Sum/Product/Inner building) is modelled in C05.",
+   design="5 C29"),
  "C24": dict(
    technique="Lean 4 proof by functional (mutual) induction that the modelled evaluate protocol returns the denotational value; correspondence of the model with the real point evaluation on generated expressions",
    text="evalI transcribes every `evaluate` method (component threading, StackDict pushes/pops, derivative tuples through Grad/Indexed/ListTensor, conditions, zero-division); eval is the denotational semantics used by all other properties. C24_sound / C24_sound_open / C24_sound_grad (52-case mutual induction, no bound on expression size, any field K, any valuation): whenever evaluation returns a value it is the denotation. evalI is run against `expr(x, mapping, component)` on type-directed random expressions (index notation with re-used Index objects, component/list tensors, slices, conditionals incl. tensor-valued, math functions, compound algebra, derivatives of mapped callables) with exact rational data, and the implementation's answer is additionally compared with the denotation (property oracle). The TypeError on tensor-valued conditionals found this way was repaired by a fix: commit.",
